@@ -1724,6 +1724,10 @@ def grammar_cases(run, with_err=True):
         run.add_tlc(r, what)
         for c in r.cases:
             cases.append({"kind": "expr", "toks": c["toks"], "ops": c["ops"]})
+    r = core.tlc(run.work, "GrammarDeep", "GrammarDeep_thorough" if run.tier == "thorough" else "GrammarDeep", timeout=1700, seed=run.seed)
+    run.add_tlc(r, "L1 Denotes on randomly drawn deep trees (nesting depth <= 4/5, redundant parentheses) + export")
+    for c in r.cases:
+        cases.append({"kind": "expr", "toks": c["toks"], "ops": c["ops"]})
     r = core.tlc(run.work, "GrammarElems", "GrammarElems", timeout=1700)
     run.add_tlc(r, "L1 element generator (terms, parameters, facts, rules, checks with or, policies, blocks, authorizers, error classes) + export")
     for c in r.cases:
